@@ -624,6 +624,11 @@ class SymInterp:
             if any(recv is m_ for m_ in _PURE_MODULES.values()):
                 return getattr(recv, f.attr)(*args, **kwargs)
             if isinstance(recv, (list, tuple, str, dict, set, frozenset, range)) or type(recv).__module__ == "collections":
+                if getattr(recv, "_cls", None) is not None and not hasattr(type(recv), f.attr):
+                    # a container stand-in of a source class (e.g. a list subclass): helper methods of that class come from the source
+                    t_ = self.resolver(recv, f.attr)
+                    if t_ is not None:
+                        return self.call_function(t_, [recv] + args, kwargs)
                 return getattr(recv, f.attr)(*args, **kwargs)
             target = self.resolver(recv, f.attr)
             if target is None and isinstance(recv, Sym) and callable(recv.__dict__.get(f.attr)):
